@@ -2966,10 +2966,13 @@ client_tcp_read_packet_cb(struct bufferevent *bev, void *ctx)
 		reply_parse(server->base, msg, msg_len);
 		mm_free(msg);
 		msg = NULL;
-		if (server->connection != conn) {
+		if (server->connection != conn || conn->bev != bev) {
 			/* Some errors occurred in reply_parse, and TCP connection has been
 			 * closed (and possibly replaced by a new one while the request
-			 * was retransmitted). Stop reading from it. */
+			 * was retransmitted). Stop reading from it.  The replacement
+			 * may have been allocated at the address of the one just
+			 * freed, so also compare the bufferevent: ours cannot go away
+			 * (or have its address reused) while its callback runs. */
 			EVDNS_UNLOCK(server->base);
 			return;
 		}
